@@ -106,6 +106,19 @@ CLAIMED.update({
     },
 })
 
+CLAIMED.update({
+    "C16": {
+        "text": "Cross-check of every public async function against its same-path sync twin (286 pairs) and of async types against the "
+                "same-path sync types (34 groups): semantic token sets of the twin-private call regions (shared-code calls, transfer "
+                "widths/endianness with multiplicity, constants, ErrorKinds, try_from type pairs, casts) must be equal modulo a frozen, "
+                "partly triaged difference table. Decides: no twin was edited alone (dropped validate/intersects/resolve, changed width, "
+                "endianness, magic or conversion). Does not decide equality under every poll schedule, nor order of operations.",
+        "note": "the sync side is pinned by the unit tests; frozen differences are recorded behaviour, not claimed equivalent; a benign one-sided edit that adds a token is reported (documented precision limit)",
+        "technique": "static analysis: Engler-style sibling cross-checking over resolved call regions and MIR token multisets",
+        "design_ref": "§5 C16",
+    },
+})
+
 NOT_APPLICABLE = {
     "C08": "every clause is numeric (rANS/arith/fqzcomp state arithmetic, ITF8/LTF8 bit arithmetic): correct and off-by-one "
            "implementations have the same code shape, so no sound static rule short of a solver/proof decides it; the "
